@@ -8,6 +8,7 @@ import (
 	"encoding/json"
 	"fmt"
 	"math"
+	"math/big"
 	"math/rand"
 	"os"
 	"reflect"
@@ -50,6 +51,7 @@ type jstyle struct {
 var jstyles = []jstyle{
 	{"literal", false, 0, "literal"}, {"upper", true, 1, "u-upper+ws+num1"}, {"lower", false, 2, "u-lower+num2"},
 	{"short", true, 3, "short+ws+num3"}, {"literal", true, 4, "literal+ws+num4"},
+	{"literal", false, 5, "literal+num5"}, {"lower", true, 6, "u-lower+ws+num6"}, {"short", false, 7, "short+num7"},
 }
 
 func spellString(cps []int, esc string) string {
@@ -110,10 +112,40 @@ func spellNumber(v *JV, variant int) string {
 	}
 
 	if ds == "0" {
-		return sign + []string{"0", "0.0", "0e0", "0E+5", "0.00e-3"}[variant%5]
+		return sign + []string{"0", "0.0", "0e0", "0E+5", "0.00e-3", "0", "0.0", "0e0"}[variant%8]
 	}
 
-	switch variant % 5 {
+	// plain integer literals (no fraction, no exponent) of whole numbers: the shortest digits followed by zeros,
+	// the exact decimal expansion of the double (2^60 = 1152921504606846976), and a neighbouring integer that
+	// rounds to the same double (9007199254740993)
+	if variant%8 >= 5 {
+		k := len(ds)
+		if v.N >= k && v.N <= 25 {
+			plain := ds + strings.Repeat("0", v.N-k)
+			f, _ := strconv.ParseFloat(plain, 64)
+			exact := new(big.Float).SetFloat64(f).Text('f', 0)
+
+			switch variant % 8 {
+			case 5:
+				return sign + plain
+			case 6:
+				return sign + exact
+			default:
+				x, _ := new(big.Int).SetString(exact, 10)
+				x.Add(x, big.NewInt(1))
+
+				if g, _ := strconv.ParseFloat(x.String(), 64); g == f {
+					return sign + x.String()
+				}
+
+				return sign + exact
+			}
+		}
+
+		return spellNumber(v, variant%8-5)
+	}
+
+	switch variant % 8 {
 	case 0: // d1.d2..dk e(n-1)
 		if len(ds) == 1 {
 			return fmt.Sprintf("%s%se%d", sign, ds, v.N-1)
